@@ -313,7 +313,7 @@ impl FilesParagraph {
     pub fn matches(&self, filename: &std::path::Path) -> bool {
         self.files()
             .iter()
-            .any(|f| crate::glob::glob_to_regex(f).is_match(filename.to_str().unwrap()))
+            .any(|f| crate::glob::glob_matches(f, filename))
     }
 
     /// Copyright holders in the paragraph
